@@ -1818,6 +1818,10 @@ func parseMatchPhrase(json_body interface{}, qid uint64) (*ASTNode, error) {
 		err = fmt.Errorf("parseMatch: Invalid Match_phrase query, unexpected json body %v", json_body)
 		return nil, err
 	}
+	if colValue == nil {
+		err = fmt.Errorf("qid=%d parseMatch: Invalid Match_phrase query, no column", qid)
+		return nil, err
+	}
 	criteria := createMatchPhraseFilterCriteria(colName, colValue, opr, qid)
 	rootNode.AndFilterCondition = &Condition{FilterCriteria: []*FilterCriteria{criteria}}
 	return rootNode, err
@@ -1849,6 +1853,10 @@ func parseMatchPhrase_nested(json_body interface{}, qid uint64) ([]*FilterCriter
 		}
 	default:
 		err = fmt.Errorf("parseMatch: Invalid Match_phrase query, unexpected json body %v", json_body)
+		return nil, err
+	}
+	if colValue == nil {
+		err = fmt.Errorf("qid=%d parseMatch: Invalid Match_phrase query, no column", qid)
 		return nil, err
 	}
 	criteria := createMatchPhraseFilterCriteria(colName, colValue, opr, qid)
@@ -2022,6 +2030,11 @@ func parseTerms(json_body interface{}, qid uint64) ([]*FilterCriteria, error) {
 			case []interface{}:
 				if len(valtype) == 0 {
 					return nil, errors.New("parseTerms : Invalid Terms query")
+				}
+				for _, v := range valtype {
+					if _, ok := v.(string); !ok {
+						return nil, fmt.Errorf("parseTerms: Invalid Terms query, value expected to be string, got %v", v)
+					}
 				}
 				criteria := createTermsFilterCriteria(key, valtype, opr)
 				andFilterCondition = append(andFilterCondition, criteria)
@@ -2314,9 +2327,17 @@ func parseMultiMatch_nested(json_body interface{}, qid uint64) (*Condition, erro
 	case map[string]interface{}:
 		for nestedKey, nestedValue := range t {
 			if nestedKey == "query" {
-				colValue = nestedValue.(string)
+				queryStr, ok := nestedValue.(string)
+				if !ok {
+					return nil, errors.New("parseMultiMatch: Invalid multi_match query, query expected to be string")
+				}
+				colValue = queryStr
 			} else if nestedKey == "type" {
-				matchType = nestedValue.(string)
+				typeStr, ok := nestedValue.(string)
+				if !ok {
+					return nil, errors.New("parseMultiMatch: Invalid multi_match query, type expected to be string")
+				}
+				matchType = typeStr
 			} else if nestedKey == "fields" {
 				switch nvaltype := nestedValue.(type) {
 				case []interface{}:
